@@ -114,6 +114,9 @@ func AssignsElems[T any](s []T)                 {}
 func AssignsSpare[T any](s []T)                 {}
 func AssignsGhost[T any](v T)                   {}
 func AssignsWhen(cond bool)                     {}
+
+// AssignsObject: the struct an interface value points to (whatever its dynamic type).
+func AssignsObject[T any](v T) {}
 func AssignsMap[K comparable, V any](m map[K]V) {}
 
 // SameMap reports whether a and b are the same map object.
